@@ -106,6 +106,10 @@ class SizeConstraint(Constraint):
             self.size_max is not None
         ), "Cannot assert the end of a constraint before having initialized it."
 
+        if self.is_obsolete:
+            # violation was reported already (and remaining bytes were skipped)
+            return
+
         # finalize self and remove it from constraint list
         self.is_obsolete = True
 
@@ -118,7 +122,10 @@ class SizeConstraint(Constraint):
             raise error
         yield WarningEvent(error=error)
 
-        yield from consume_bytes(self.size_max - self.size_already)
+        # skip the padding, it counts towards the enclosing constraints like any other bytes
+        padding = self.size_max - self.size_already
+        yield from all_size_constraints.bytes_parsed(self.constraint_path, padding)
+        yield from consume_bytes(padding)
 
     def __repr__(self):
         return f"{type(self).__name__}({self.constraint_path}: {self.size_already}/{self.size_max})"
@@ -129,16 +136,38 @@ class SizeConstraintList(list[SizeConstraint]):
         super().__init__(*args, **kwargs)
 
     def bytes_parsed(self, path, size, anticipate_only=False):
-        # TODO always in order from deepest to highest
+        """Constraints are ordered from outermost to innermost."""
         for constraint in self.copy():
-            try:
-                yield from constraint.bytes_parsed(
-                    path,
-                    size,
-                    anticipate_only=anticipate_only,
-                )
-            except ConstraintObsoleteError:
+            if constraint.is_obsolete:
                 self.remove(constraint)
+
+        if not anticipate_only:
+            # outermost constraint which is going to be violated
+            violated = next(
+                (
+                    c
+                    for c in self
+                    if c.size_max is not None and c.size_already + size > c.size_max
+                ),
+                None,
+            )
+            if violated is not None:
+                # the rest of the violated constraint is skipped: enclosing constraints see the skipped bytes only,
+                # enclosed constraints are abandoned
+                skipped = max(violated.size_max - violated.size_already, 0)
+                index = self.index(violated)
+                for constraint in self[:index]:
+                    constraint.size_already += skipped
+                for constraint in self[index + 1 :]:
+                    constraint.is_obsolete = True
+                yield from violated.bytes_parsed(path, size)
+
+        for constraint in self.copy():
+            yield from constraint.bytes_parsed(
+                path,
+                size,
+                anticipate_only=anticipate_only,
+            )
 
     def assert_done(self):
         # if not all constraints are obsolete by now, this is a bug
